@@ -63,6 +63,8 @@ def compare(run, state, fields=None):
     for k in want:
         if fields is not None and k not in fields:
             continue
+        if k == 'n2' and got[k] is None:
+            continue
         if want[k] != got[k]:
             diffs.append((k, want[k], got[k]))
     # control calls made by the RPC reply task are internal: their effect and their reply are what is observed
